@@ -161,7 +161,7 @@ def ref_lp(wire):
             if e:
                 rc.read_nni(buf, e[0][1], e[0][2])
         elif t in (rc.L['INCOMING_FACE_ID'], rc.L['NEXT_HOP_FACE_ID'], rc.L['CONGESTION_MARK']):
-            pass
+            rc.read_nni(buf, cvs, cve)      # NonNegativeInteger headers: legal width only
     return r
 
 
@@ -266,7 +266,7 @@ def judge(ctx, dec, wire, klass, wellformed=False, steps=True):
 def corpus(ctx, rng):
     """Valid packets: [(decoder, wire)]"""
     out = []
-    for _ in range(ctx.n(20, 60)):
+    for _ in range(ctx.n(20, 960)):
         comps = gen.name(rng, 0, 5)
         kind = rng.choice(['none', 'digest', 'hmac', 'ecdsa256', 'ed25519', 'null', 'var'])
         signer, _ = pkts.make_signer(rng, kind)
@@ -282,7 +282,7 @@ def corpus(ctx, rng):
             comps.insert(rng.randint(0, len(comps)), rc.comp(2, bytes(32)))      # digest placeholder not in the last position
         out.append(('interest', bytes(make_interest(comps, prm, app, signer))))
     # reference-encoded (shapes the library encoder never emits)
-    for _ in range(ctx.n(8, 30)):
+    for _ in range(ctx.n(8, 480)):
         nm = gen.name(rng, 1, 4)
         out.append(('data', rc.make_data(nm, content=gen.rand_bytes(rng, 5), content_type=rng.choice([None, 0, 300]),
                                          freshness=rng.choice([None, 1, 70000]), final_block=rng.choice([None, b'\x32\x01\x05']),
@@ -296,7 +296,7 @@ def corpus(ctx, rng):
                                                                             rc.make_siginfo_value(4, key_name=gen.simple_name(rng))]),
                                                  sig_value=gen.rand_bytes(rng, 32))[0]))
     base = [w for d, w in out]
-    for _ in range(ctx.n(14, 50)):
+    for _ in range(ctx.n(14, 800)):
         frag = rng.choice(base + [None, b''])
         hdrs = []
         for t, v in ((0x32c, rc.enc_nni(rng.randrange(1 << 16))), (0x330, b'\x01'), (0x334, rc.enc_tlv(0x335, b'\x01')),
@@ -307,7 +307,7 @@ def corpus(ctx, rng):
                                      nack_reason=rng.choice([None, None, 0, 50, 150, 2**40]), nack=rng.random() < 0.1, headers=hdrs,
                                      frag_index=rng.choice([None, None, None, 0]), frag_count=rng.choice([None, None, None, 2]))))
     import datetime
-    for _ in range(ctx.n(4, 12)):
+    for _ in range(ctx.n(4, 192)):
         kind = rng.choice(['ecdsa256', 'ecdsa256', 'rsa', 'ed25519'])
         kn = gen.simple_name(rng, 1, 3) + [rc.comp(8, b'KEY'), rc.comp(8, gen.rand_bytes(rng, 4))]
         signer, info = pkts.make_signer(rng, kind, kn)
@@ -315,7 +315,7 @@ def corpus(ctx, rng):
             out.append(('cert', bytes(self_sign(kn, info['pub'], signer)[1])))
         else:
             out.append(('cert', bytes(derive_cert(kn, 'iss', info['pub'], signer, datetime.datetime(2020, 2, 29, 23, 59, 59), 86400 * 400)[1])))
-    for _ in range(ctx.n(8, 20)):
+    for _ in range(ctx.n(8, 320)):
         out.append(('name', rc.enc_name(gen.name(rng, 0, 8))))
     return out
 
@@ -363,7 +363,7 @@ def run(ctx):
         for i, (label, m) in enumerate(muts):
             judge(ctx, dec, m, label, steps=(i % 10 == 0))
     # random strings
-    nrand = ctx.n(30000, 1600000)
+    nrand = ctx.n(30000, 24000000)
     for i in range(nrand):
         L = rng.choice([0, 1, 2, 3, 5, 8, 13, 21, 40, 80, 200, 1000]) if rng.random() < 0.9 else rng.randint(1000, 6000)
         dec = decs[i % len(decs)]
